@@ -188,6 +188,12 @@ HAND = [
                                  'int k = _Generic(+u2.a, int: 1, unsigned: 2, default: 0), m = _Generic(+u2.h, int: 1, unsigned: 2, default: 0), n = _Generic(+u2.w, int: 1, unsigned: 2, default: 0),\n'
                                  '    o = _Generic(u2.a + 0, int: 1, unsigned: 2, default: 0), p = sizeof(+u2.h);\n',
      {'k': 1, 'm': 1, 'n': 2, 'o': 1, 'p': 4}, None),
+    # every order of the type specifier multisets of 6.7.2p2 that have three and four keywords
+    ('specifier-orders', 'int a = _Generic((unsigned short int)0, unsigned short: 1, default: 0), b = _Generic((short unsigned int)0, unsigned short: 1, default: 0), c = _Generic((int short unsigned)0, unsigned short: 1, default: 0),\n'
+                         '    d = _Generic((int unsigned short)0, unsigned short: 1, default: 0), e = _Generic((signed short int)0, short: 1, default: 0), f = _Generic((long unsigned int long)0, unsigned long long: 1, default: 0),\n'
+                         '    g = _Generic((int long signed long)0, long long: 1, default: 0), h = _Generic((long int unsigned)0, unsigned long: 1, default: 0), i = _Generic((signed int long)0, long: 1, default: 0),\n'
+                         '    j = sizeof(unsigned short int), k = sizeof(short int), l = sizeof(long int signed), m = sizeof(int short signed), n = _Generic((double long)0, long double: 1, default: 0), o = _Generic((char unsigned)0, unsigned char: 1, default: 0);\n',
+     {'a': 1, 'b': 1, 'c': 1, 'd': 1, 'e': 1, 'f': 1, 'g': 1, 'h': 1, 'i': 1, 'j': 2, 'k': 2, 'l': 8, 'm': 2, 'n': 1, 'o': 1}, None),
     ('decay-qual-bad1', 'struct S { int a[2]; }; const struct S cs; void f(void) { int *p = cs.a; }\n', 'reject', None),
     ('decay-qual-bad2', 'typedef int T[2]; const T ct; void g(int *); void f(void) { g(ct); }\n', 'reject', None),
     ('decay-qual-ok', 'struct S { int a[2]; }; const struct S cs; struct S s; void g(const int *); void f(void) { const int *p = cs.a; int *q = s.a; g(cs.a); g(q); }\nint a = 1;\n', {'a': 1}, None),
